@@ -192,7 +192,7 @@ def LasCurves.setData (L : LasCurves) (rows : List (List Cell)) (names : Option 
   let w := cvRowsWidth rows1
   if 0 < rows1.length * w then
     (L.extend (w - L.sec.items.length)).assignCols rows1 w names
-  else (⟨L.sec.assignAll, L.data⟩, .ok)
+  else (L, .ok)      -- an empty array: nothing is renamed, no suffix is re-assigned (since the repair of `df-empty-stale-suffix`)
 
 /-! ### the operations as data -/
 
